@@ -24,7 +24,7 @@ def layers(prop, tier):
                 for ae in (True, False):
                     jobs.append({'prop': prop, 'gen': {'gen': 'univ', 'K': K}, 'meas': meas,
                                  't': t, 'op': op, 'ae': ae, 'pres': pres})
-    for t in range(1, K + 2):
+    for t in list(range(1, K + 2)) + [0.5, 1.5, 2.0, 2.5, K - 0.5]:     # ints, and floats with and without a fraction
         for op in ('>=', '>', '='):
             jobs.append({'prop': prop, 'gen': {'gen': 'univ', 'K': K}, 'meas': 'OVERLAP',
                          't': t, 'op': op, 'pres': pres})
@@ -125,7 +125,7 @@ def layers(prop, tier):
             ['qg', 3, True, False], ['qg', 3, False, True]]
     for spec in toks:
         for meas in SET_MEASURES + ('OVERLAP',):
-            ts = (1, 2, 3) if meas == 'OVERLAP' else (0.3, 0.5, 2.0 / 3, 0.8, 1.0)
+            ts = (1, 2, 3, 1.5) if meas == 'OVERLAP' else (0.3, 0.5, 2.0 / 3, 0.8, 1.0)
             for t in ts:
                 for op in ('>=', '>', '='):
                     jobs.append({'prop': prop, 'gen': {'gen': 'struniv', 'alpha': 'ab',
